@@ -283,6 +283,12 @@ def r7_cache_purity(ctx, res):
             res.find(key, f.module.loc(f.node), 'compute() neither caches nor queries hypernyms')
 
 
+def r5_ancestor_walk_stays_in_the_wordnet(ctx, res):
+    """compute() adds a word's weight to its hypernym ancestors IN THE GIVEN WORDNET: the synsets the walk reaches carry that
+    Wordnet (C04-R7); one built without it continues through every installed lexicon."""
+    from .c04 import r7_wordnet_handed_on
+    r7_wordnet_handed_on(ctx, res)
+
 RULES = [
     ('C15-R1', r1_once_per_node, 3),
     ('C15-R2', r2_pos_folding, 3),
@@ -291,4 +297,5 @@ RULES = [
     ('C15-R5', r5_initialize, 2),
     ('C15-R6', r6_probability, 2),
     ('C15-R7', r7_cache_purity, 1),
+    ('C15-R5', r5_ancestor_walk_stays_in_the_wordnet, 12),
 ]
